@@ -1,5 +1,6 @@
 import HapModel.Drv.Basic
 import HapModel.Model.ObjMachine
+import HapModel.Model.HapObj
 namespace Drv
 open Lean Cache
 
@@ -30,5 +31,32 @@ def hObjRun (j : Json) : R Json := do
       go r.1 rest (jObj ([("state", jObjState r.1)] ++ (match r.2 with
         | some c => [("returned", jObjState c)] | none => [])) :: acc)
   pure <| jObj [("trace", jArr (go ⟨⟨[], none⟩, ⟨[], none⟩, []⟩ ops []))]
+
+def hrec (j : Json) : R HapObj.Rec := do
+  match ← arr j with
+  | [i, h, k] => pure ⟨← str i, ← bool h, ← nat k⟩
+  | _ => throw "rec expected"
+
+def hapOp (file : List HapObj.Rec) (j : Json) : R HapObj.Op := do
+  let k ← strF j "k"
+  if k = "read" then pure (.read file (← optF (listOf str) j "ids"))
+  else if k = "subset" then pure (.subset (← listF str j "ids") (← boolF j "inplace"))
+  else if k = "sort" then pure .sort
+  else if k = "index" then pure (.index (← boolF j "force"))
+  else if k = "merge" then pure .mergeEmpty
+  else if k = "query" then pure .query
+  else throw s!"unknown op {k}"
+
+/-- {"op":"hapObjRun","file":[[id,isH,key]…],"ops":[…]} → per op {ids, returned: null|[ids, query ids], query: null|[ids]} -/
+def hHapObjRun (j : Json) : R Json := do
+  let file ← listF hrec j "file"
+  let ops ← (← arrF j "ops").mapM (hapOp file)
+  let r := HapObj.run HapObj.fresh ops
+  pure <| jObj [("trace", jArr (r.2.map (fun o => jObj [
+    ("ids", jArr (o.ids.map jStr)),
+    ("returned", match o.returned with
+      | none => Json.null
+      | some (a, b) => jArr [jArr (a.map jStr), jArr (b.map jStr)]),
+    ("query", match o.query with | none => Json.null | some q => jArr (q.map jStr))])))]
 
 end Drv
